@@ -161,6 +161,111 @@ def per_instance_problems(repo: Repo, c) -> List[str]:
     return probs
 
 
+COPY_FORMS = ('copy.copy(%s)', 'dict(%s)', '%s.copy()', 'copy.deepcopy(%s)')
+
+
+def proposal_sources(repo, cls_name='AssociationRequester'):
+    """How an association gets its ``self.context_def_list``: [(function, line, verdict)] with verdict
+    'locked-copy' (``<ae>.copy_context_def_list()``, or a copy expression of ``<ae>.context_def_list`` evaluated inside
+    ``with <ae>.lock:``), 'unlocked-copy', 'live' (the entity's own object) or 'other'."""
+    c = repo.cls('asceprovider', cls_name)
+    out = []
+    for k in c.mro():
+        for fi in k.methods.values():
+            locked = set()
+            for w in ast.walk(fi.node):
+                if isinstance(w, ast.With) and any(norm(it.context_expr).endswith('.lock') for it in w.items):
+                    for n in ast.walk(w):
+                        locked.add(id(n))
+            for n in ast.walk(fi.node):
+                if isinstance(n, ast.Assign) and any(norm(t) == 'self.context_def_list' for t in n.targets):
+                    v = norm(n.value)
+                    if v.endswith('.copy_context_def_list()'):
+                        out.append((fi, n.lineno, 'locked-copy'))
+                        continue
+                    src = None
+                    for form in COPY_FORMS:
+                        pre, post = form.split('%s')
+                        if v.startswith(pre) and v.endswith(post) and v[len(pre):len(v) - len(post)].endswith('.context_def_list'):
+                            src = v[len(pre):len(v) - len(post)]
+                    if src is not None:
+                        out.append((fi, n.lineno, 'locked-copy' if id(n) in locked else 'unlocked-copy'))
+                    elif v in ('{}', 'dict()', 'None', 'collections.OrderedDict()'):
+                        out.append((fi, n.lineno, 'empty'))      # a placeholder until the copy is taken
+                    elif v.endswith('.context_def_list'):
+                        out.append((fi, n.lineno, 'live'))
+                    else:
+                        out.append((fi, n.lineno, 'other'))
+    return out
+
+
+BLOCKING_ATTRS = ('receive', 'recv', 'recv_into', 'accept', 'connect', 'sendall', 'join', 'wait', 'sleep', 'select',
+                  'serve_forever', 'handle_request')
+
+
+def blocking_under_lock(repo):
+    """calls that may wait for a peer or another thread made while an entity-wide lock is held: inside ``with <x>.lock:`` a call
+    of a blocking primitive (socket / queue / thread waits, ``DULServiceProvider.receive``) -- directly, or through package
+    functions it calls (followed by name through the call summary) -- serialises every association of the entity behind one peer"""
+    # functions that block, transitively
+    blocks = {}
+    funcs = list(repo.all_functions())
+    direct = {}
+    calls = {}
+    for fi in funcs:
+        d = []
+        cs = set()
+        for n in ast.walk(fi.node):
+            if isinstance(n, ast.Call):
+                fn = n.func
+                name = fn.attr if isinstance(fn, ast.Attribute) else fn.id if isinstance(fn, ast.Name) else None
+                if name is None:
+                    continue
+                if name in BLOCKING_ATTRS and not (name in ('join',) and isinstance(fn, ast.Attribute) and isinstance(fn.value, ast.Constant)):
+                    d.append((name, n.lineno))
+                elif name == 'get' and isinstance(fn, ast.Attribute) and ('queue' in norm(fn.value).lower() or 'service_user' in norm(fn.value)) \
+                        and not (n.args and isinstance(n.args[0], ast.Constant) and n.args[0].value is False):
+                    d.append(('queue get', n.lineno))
+                cs.add(name)
+        direct[fi.key] = d
+        calls[fi.key] = cs
+    by_name = {}
+    for fi in funcs:
+        by_name.setdefault(fi.name, []).append(fi.key)
+    may_block = {k for k, d in direct.items() if d}
+    changed = True
+    while changed:
+        changed = False
+        for k, cs in calls.items():
+            if k in may_block:
+                continue
+            if any(t in may_block for c_ in cs for t in by_name.get(c_, [])):
+                may_block.add(k)
+                changed = True
+    probs = []
+    n_regions = 0
+    for fi in funcs:
+        for w in ast.walk(fi.node):
+            if not (isinstance(w, ast.With) and any(norm(it.context_expr).endswith('.lock') for it in w.items)):
+                continue
+            n_regions += 1
+            for st in w.body:
+                for n in ast.walk(st):
+                    if isinstance(n, ast.Call):
+                        fn = n.func
+                        name = fn.attr if isinstance(fn, ast.Attribute) else fn.id if isinstance(fn, ast.Name) else None
+                        if name is None:
+                            continue
+                        if any(name == bn and ln == n.lineno for bn, ln in direct[fi.key]):
+                            probs.append('%s line %d: %s() while %s is held' % (fi.key, n.lineno, name, norm(w.items[0].context_expr)))
+                        elif any(t in may_block for t in by_name.get(name, [])) and name not in ('__init__',):
+                            probs.append('%s line %d: %s() may wait for the peer (%s) while %s is held'
+                                         % (fi.key, n.lineno, name, ', '.join(sorted({b for t in by_name.get(name, []) if t in may_block
+                                                                                     for b, _l in direct.get(t, [])})[:3]) or 'through its callees',
+                                            norm(w.items[0].context_expr)))
+    return n_regions, sorted(set(probs))
+
+
 def run(repo, rep):
     _selfcheck()
     rep.assume('NOT DECIDED by this family: behaviour under concrete thread interleavings, independence of failures')
@@ -173,6 +278,9 @@ def run(repo, rep):
              'from association threads; association-side code never writes through .ae', 2)
     rep.rule('C20.H3b', 'the live context definition list is never stored in or iterated by an association: only its copy '
              'taken under the lock', 2)
+    rep.rule('C20.H6', 'no call that waits for a peer or another thread (socket / queue / thread waits, DUL receive -- directly or '
+             'through the functions it calls) is made while an entity-wide lock is held: one slow peer would stall every other '
+             'association of the entity', 1)
     rep.rule('C20.H4', 'no module-level or class-level container is mutated by a function reachable from an association thread', 1)
     rep.rule('C20.H5', 'storage files in the shared directory are created atomically (exclusive create)', 1)
 
@@ -309,12 +417,21 @@ def run(repo, rep):
                     ch = attr_chain(sub) if isinstance(sub, ast.Attribute) else None
                     if ch and ch[-1] == 'context_def_list' and ('ae' in ch or 'local_ae' in ch):
                         probs.append('%s iterates the live context_def_list at line %d' % (fi.key, getattr(n, 'lineno', getattr(it, 'lineno', 0))))
-    rq = repo.cls('asceprovider', 'AssociationRequester').find_method('__init__')
-    if not any(isinstance(n, ast.Assign) and norm(n.targets[0]) == 'self.context_def_list' and
-               norm(n.value).endswith('.copy_context_def_list()') for n in ast.walk(rq.node)):
-        probs.append('AssociationRequester does not take its proposal from copy_context_def_list()')
+    srcs = proposal_sources(repo)
+    for fi_, line_, verdict in srcs:
+        if verdict not in ('locked-copy', 'empty'):
+            probs.append('%s line %d: the association\'s context definition list is %s' % (
+                fi_.key, line_, {'unlocked-copy': 'copied without holding the entity lock', 'live': 'the entity\'s live object',
+                                 'other': 'not a copy of the entity\'s list'}[verdict]))
+    if not any(v_ == 'locked-copy' for _f, _l, v_ in srcs):
+        probs.append('AssociationRequester does not take its proposal from a copy of the entity\'s list')
     rep.check(not probs, 'C20.H3b', 'package:no-alias-of-context-def-list', 'pynetdicom2',
               'associations work on the copy only', '; '.join(probs))
+
+    # ---------------------------------------------------------------- H6
+    n_reg, p6 = blocking_under_lock(repo)
+    rep.check(not p6, 'C20.H6', 'package:no-blocking-call-under-lock', 'pynetdicom2',
+              'nothing waits for a peer inside the %d lock region(s)' % n_reg, '; '.join(p6[:5]))
 
     # ---------------------------------------------------------------- H4
     probs = []
